@@ -134,6 +134,7 @@ type frame struct {
 	bindings []Val
 	forks    map[*ssa.BasicBlock]int
 	visits   map[*ssa.BasicBlock]int
+	iters    map[ssa.Value]int
 	defers   []*ssa.Defer
 	stopAt   *ssa.BasicBlock
 }
@@ -145,6 +146,12 @@ func (f *frame) clone() *frame {
 	}
 	for k, v := range f.forks {
 		n.forks[k] = v
+	}
+	if len(f.iters) > 0 {
+		n.iters = make(map[ssa.Value]int, len(f.iters))
+		for k, v := range f.iters {
+			n.iters[k] = v
+		}
 	}
 	if len(f.visits) > 0 {
 		n.visits = make(map[*ssa.BasicBlock]int, len(f.visits))
@@ -1000,6 +1007,7 @@ func (e *Engine) evalValue(st *State, fr *frame, in ssa.Value) (Val, string) {
 		et := in.Type().Underlying().(*types.Slice).Elem()
 		e.nextCell++
 		base := &Opaque{Key: fmt.Sprintf("make#%d", e.nextCell), Type: in.Type(), Fn: "make", Args: []Val{ln}}
+		st.addEvent(Event{Kind: "make", Fn: "make", Args: []Val{ln}, Pos: in.Pos()})
 		return &SliceVal{Base: base, Lo: formInt(0), Len: ln, Elem: et}, ""
 	case *ssa.MakeMap:
 		c := e.newCell("map", in.Type())
@@ -1049,8 +1057,44 @@ func (e *Engine) evalValue(st *State, fr *frame, in ssa.Value) (Val, string) {
 			return Tuple{nv, ok}, ""
 		}
 		return x, ""
-	case *ssa.Range, *ssa.Next:
-		return nil, "range over map/string is not interpreted"
+	case *ssa.Range:
+		x := e.val(st, fr, in.X)
+		if fr.iters == nil {
+			fr.iters = map[ssa.Value]int{}
+		}
+		fr.iters[in] = 0
+		return &IterVal{Over: x, Of: in}, ""
+	case *ssa.Next:
+		it, ok := e.val(st, fr, in.Iter).(*IterVal)
+		if !ok || in.IsString {
+			return nil, "range over a string is not interpreted"
+		}
+		tt := in.Type().(*types.Tuple)
+		idx := fr.iters[it.Of]
+		fr.iters[it.Of] = idx + 1
+		if m, ok := it.Over.(*MapVal); ok {
+			// recorded updates in insertion order, later identical keys override earlier ones
+			var ents []mapEntry
+			for _, en := range st.maps[m.Cell] {
+				dup := false
+				for i := range ents {
+					if valKey(ents[i].K) == valKey(en.K) {
+						ents[i].V = en.V
+						dup = true
+					}
+				}
+				if !dup {
+					ents = append(ents, en)
+				}
+			}
+			if idx < len(ents) {
+				return Tuple{boolConst(true), ents[idx].K, ents[idx].V}, ""
+			}
+			return Tuple{boolConst(false), e.zeroVal(tt.At(1).Type()), e.zeroVal(tt.At(2).Type())}, ""
+		}
+		// symbolic map: the n-th element exists or not
+		name := fmt.Sprintf("%s#%d", valKey(it.Over), idx)
+		return Tuple{&BoolVal{Op: "atom", K: "hasnext(" + name + ")"}, e.appOfType("mapkey", tt.At(1).Type(), it.Over, formInt(int64(idx))), e.appOfType("mapval", tt.At(2).Type(), it.Over, formInt(int64(idx)))}, ""
 	}
 	return nil, fmt.Sprintf("unsupported value instruction %T", in)
 }
